@@ -21,13 +21,13 @@ RULE = ("SF-core recipes with 1-3 just_once templates (any count, with/without n
 TRUSTED = ["harness/sfcore.py printers / capture stream; continuation files passed as text between runs"]
 ASSUMPTIONS = ["`random_reference` to just_once rows is covered by C10; row-valued fields of just_once rows are the "
                "known finding K1/K2 of C04 and are not generated here"]
-W = dict(once=0.75, nick=0.6, ref=0.3, formula=0.4, nested=0.06, friend=0.3, fwd=0.15, var_stmt=0.15)
+W = dict(once=0.75, nick=0.6, ref=0.3, formula=0.4, nested=0.06, friend=0.3, fwd=0.15, var_stmt=0.15, randref=0.1)
 
 
 def gen_case(rng):
     from .c04 import row_valued_in_once
     if rng.random() < 0.25:      # directed streams (DESIGN.md 11.4)
-        r, feats = rng.choice([S.stream_once_cluster, S.stream_once_hidden])(rng)
+        r, feats = rng.choice([S.stream_once_cluster, S.stream_once_hidden, S.stream_randref_nicks])(rng)
     else:
         for _ in range(50):
             r, feats = S.gen_recipe(rng, W)
